@@ -10,5 +10,6 @@ CONSTANTS
   Barrier = TRUE
   CacheDbErr = TRUE
   QueryOnErr = FALSE
+  TwoStepNF = FALSE
 INVARIANTS ErrorsNotCached NonOverlapTrue
 CHECK_DEADLOCK FALSE
